@@ -32,6 +32,9 @@ func (d *numberDecoder) DecodeStream(s *Stream, depth int64, p unsafe.Pointer) e
 	if _, err := strconv.ParseFloat(*(*string)(unsafe.Pointer(&bytes)), 64); err != nil {
 		return errors.ErrSyntax(err.Error(), s.totalOffset())
 	}
+	if !isValidNumberToken(bytes) {
+		return errors.ErrSyntax(invalidNumberLiteral, s.totalOffset())
+	}
 	d.op(p, json.Number(string(bytes)))
 	s.reset()
 	return nil
@@ -44,6 +47,9 @@ func (d *numberDecoder) Decode(ctx *RuntimeContext, cursor, depth int64, p unsaf
 	}
 	if _, err := strconv.ParseFloat(*(*string)(unsafe.Pointer(&bytes)), 64); err != nil {
 		return 0, errors.ErrSyntax(err.Error(), c)
+	}
+	if !isValidNumberToken(bytes) {
+		return 0, errors.ErrSyntax(invalidNumberLiteral, c)
 	}
 	cursor = c
 	s := *(*string)(unsafe.Pointer(&bytes))
